@@ -236,11 +236,17 @@ func (e *Engine) sendPoisonPill(ctx context.Context, graceful bool, pid *PID) co
 		graceful: graceful,
 	}
 	// deadletter - if we didn't find a process, we will broadcast a DeadletterEvent
-	proc := e.Registry.get(pid)
+	var proc Processer
+	// The registry goes by id only. A PID of another node is not ours to stop,
+	// even if a local actor happens to have the same id.
+	local := pid != nil && e.isLocalMessage(pid)
+	if local {
+		proc = e.Registry.get(pid)
+	}
 	if proc == nil {
 		// The process can be unregistered and still be handling Stopped: the
 		// context must not be done before it is.
-		if pid != nil {
+		if local {
 			if proc, ok := e.stopping.Load(pid.ID); ok && proc.(*process).awaitStop(cancel) {
 				return ctx
 			}
